@@ -1,7 +1,7 @@
 #!/usr/bin/env python3
 """Detection robustness: every stored seeded change against the check(s) that caught it, for other VERIF_SEED values.
 
-usage: tools/seedscan.py [seed values, default 2 3] ; writes seeded/SCAN.json {name: {check: {seed: detected}}}
+usage: tools/seedscan.py [--only name,name] [seed values, default 2 3] ; writes seeded/SCAN.json {name: {check: {seed: detected}}}
 Only applies the patch in a scratch worktree and runs the quick tier (no demonstration, no package tests).
 """
 import json
@@ -51,9 +51,21 @@ def one(name, seeds):
 
 
 def main():
-    seeds = [int(x) for x in sys.argv[1:]] or [2, 3]
+    args = sys.argv[1:]
+    only = None
+    if "--only" in args:     # re-scan some seeds and merge into the stored result
+        i = args.index("--only")
+        only = args[i + 1].split(",")
+        del args[i:i + 2]
+    seeds = [int(x) for x in args] or [2, 3]
     names = sorted(n for n in os.listdir(os.path.join(V, "seeded")) if os.path.isdir(os.path.join(V, "seeded", n)))
     out = {}
+    if only:
+        names = [n for n in names if n in only]
+        try:
+            out = json.load(open(os.path.join(V, "seeded", "SCAN.json")))
+        except Exception:
+            out = {}
     os.chdir(V)
     with ThreadPoolExecutor(max_workers=4) as ex:
         for name, res in ex.map(lambda n: one(n, seeds), names):
